@@ -185,12 +185,14 @@ class TriangularLinearOperator(LinearOperator, _TriangularLinearOperatorBase):
             inv_quad_term = torch.empty(0, dtype=self.dtype, device=self.device)
         else:
             # triangular, solve is cheap
+            if inv_quad_rhs.dim() == 1:
+                inv_quad_rhs = inv_quad_rhs.unsqueeze(-1)
             inv_quad_term = (inv_quad_rhs * self.solve(inv_quad_rhs)).sum(dim=-2)
         if logdet:
             diag = self._diagonal()
             logdet_term = self._diagonal().abs().log().sum(-1)
-            if torch.sign(diag).prod(-1) < 0:
-                logdet_term = torch.full_like(logdet_term, float("nan"))
+            negative = torch.sign(diag).prod(-1) < 0
+            logdet_term = torch.where(negative, torch.full_like(logdet_term, float("nan")), logdet_term)
         else:
             logdet_term = torch.empty(0, dtype=self.dtype, device=self.device)
         if inv_quad_term.numel() and reduce_inv_quad:
